@@ -213,6 +213,76 @@ pub fn run_c07(cfg: &Cfg, rep: &mut Report) {
         rep.evaluations += cases * 66_004;
         rep.count("long_prior_history_cases", cases);
     }
+    // wrap-crossing histories: N filler messages with N just below a power of two (message
+    // positions / generation counters of 8, 16 or 32 bits), optionally a reset, then eight
+    // encoded messages in a row which cross the wrap — each must be reported
+    if !cfg.as_c18 {
+        let mut ns: Vec<u64> = vec![(1 << 8) - 6, (1 << 16) - 6];
+        if cfg.thorough && cfg.release {
+            ns.push((1u64 << 32) - 6);
+        }
+        let mut jobs: Vec<(u64, u8, bool)> = Vec::new();
+        for &n in &ns {
+            for filler_kind in 0u8..3 {
+                for with_reset in [false, true] {
+                    jobs.push((n, filler_kind, with_reset));
+                }
+            }
+        }
+        let jobs_ref = &jobs;
+        par(cfg, rep, |shard, nsh, rep| {
+            for (ji, &(n, fk, with_reset)) in jobs_ref.iter().enumerate() {
+                if ji % nsh != shard {
+                    continue;
+                }
+                let c = 5u8;
+                let filler = match fk {
+                    0 => raw(0xF8, 0, 0),
+                    1 => raw(0x90 | c, 60, 1),
+                    _ => raw(0xB0 | c, 70, 1),
+                };
+                let mut sc = ControlChange14BitMessageScanner::new();
+                let first = [raw(0xB0 | c, 7, 1), raw(0xB0 | c, 39, 2)];
+                let ok = api("ControlChange14BitMessageScanner::feed (wrap-crossing history)", || {
+                    let mut bad: Option<String> = None;
+                    sc.feed(&first[0]);
+                    if sc.feed(&first[1]).is_none() {
+                        bad = Some("first pair not reported".into());
+                    }
+                    for _ in 0..n {
+                        if sc.feed(&filler).is_some() && bad.is_none() {
+                            bad = Some("filler reported".into());
+                        }
+                    }
+                    if with_reset {
+                        sc.reset();
+                    }
+                    for k in 0..8u16 {
+                        let v = 1000 + k * 129;
+                        let m = ControlChange14BitMessage::new(ch(c), cn((k % 32) as u8), u14(v));
+                        let enc: [RawShortMessage; 2] = m.to_short_messages();
+                        let o1 = sc.feed(&enc[0]);
+                        let o2 = sc.feed(&enc[1]);
+                        if (o1.is_some() || o2 != Some(m)) && bad.is_none() {
+                            bad = Some(format!("pair #{} after the fillers returned {:?} / {:?}", k, o1.is_some(), o2.map(|x| x.value().get())));
+                        }
+                    }
+                    bad.is_none()
+                });
+                rep.evaluations += n + 18;
+                rep.count("wrap_crossing_histories", 1);
+                rep.max("max_wrap_crossing_history_length", n + 18);
+                if ok != Some(true) {
+                    crate::viol!(
+                        rep,
+                        "C07:scanner-does-not-invert-encoder:wrap-crossing-history",
+                        format!("after one reported pair and {} filler messages (kind {}){} eight encoded messages in a row were not all reported", n, fk, if with_reset { " and a reset" } else { "" }),
+                        json!({"kind":"history-compressed","scanner":"cc14","fillers":n,"filler_kind":fk,"reset":with_reset})
+                    );
+                }
+            }
+        });
+    }
     // constructor panic condition
     for n in 0u8..128 {
         for (c, v) in [(0u8, 0u16), (15, 16383), (7, 8192)] {
